@@ -256,3 +256,27 @@ def getFromTree (h : Heap) (nid : Nat) (fromRoot : Bool) (names : List String) :
           | none => .refused
 
 end EmdModel
+
+namespace EmdModel
+
+/-- what `save` does to the caller's objects (write.py): an unrooted node is given a temporary root named
+    `<name>_root` (or is hung under `root_savedlist`) while the file is written and is unrooted again afterwards —
+    whether or not the write succeeded (the repaired defect); its private `_treepath` keeps the temporary value -/
+def saveEffectOne (n : RNode) : RNode :=
+  match n with
+  | .mk i nm isR none _ m ks => .mk i nm isR none (some ("/" ++ nm)) m ks
+  | other => other
+
+def saveEffect (h : Heap) (passed : List Nat) : Heap :=
+  { h with comps := h.comps.map (fun c => if passed.contains c.id then saveEffectOne c else c) }
+
+/-- what the caller can observe of a top-level object: everything, except that the cached treepath of a node that is in
+    no tree has no observable meaning (it is overwritten when the node is added to a tree) -/
+def observeTop (c : RNode) : RNode :=
+  match c with
+  | .mk i nm isR none _ m ks => .mk i nm isR none none m ks
+  | other => other
+
+def observe (h : Heap) : List RNode × List (Nat × MdObj) := (h.comps.map observeTop, h.mds)
+
+end EmdModel
